@@ -44,7 +44,9 @@ def step(ctx, m, st, op, hist):
     if op in ("e_fresh", "e_reuse"):
         st.ctr += 1
         c = st.ctr
-        fields = (0o1 + (c % 5), 0o2, 1000 + c, 1 + (c % 120), c % 256, bytes([c % 256]) * (c % 25))
+        # 0..24 bytes mostly; every 7th frame is a long (reassembled / looped-back) message
+        ln = (c % 25) if c % 7 != 3 else 25 + (c * 13) % 120
+        fields = (0o1 + (c % 5), 0o2, 1000 + c, 1 + (c % 120), c % 256, bytes([c % 256]) * ln)
         if c % 2:  # every other frame carries a bytearray the caller later mutates IN PLACE
             fields = fields[:5] + (bytearray(fields[5]),)
         if op == "e_fresh" or st.last_obj is None:
